@@ -60,6 +60,41 @@ MODEL_GROUPS = set(S.PLAIN_GROUPS + S.OPTION_GROUPS + ["CustomGroup", "RootGroup
 MODEL_OBJECTS = (set(S.ALL_OBJECTS) - SURVEYS - {"Drillhole"}) | {"Drillhole"}
 
 
+# facts read from the source under test on every run (see regenerate): does a CustomGroup copy come back as None, and does
+# clear_cache leave the cached parts of a curve behind (so that its cells are rebuilt from them)?
+FLAGS = {"custom_group_copy_is_none": True, "clear_cache_keeps_parts": True}
+
+
+def regenerate(repo):
+    import ast
+    from pathlib import Path
+
+    repo = Path(repo)
+    tree = ast.parse((repo / "geoh5py/workspace/workspace.py").read_text())
+    fallback_covers_custom = False
+    found = False
+    for fn in ast.walk(tree):
+        if isinstance(fn, ast.FunctionDef) and fn.name == "create_object_or_group":
+            found = True
+            for node in ast.walk(fn):
+                if isinstance(node, ast.If) and isinstance(node.test, ast.Compare) and isinstance(node.test.left, ast.Name) \
+                        and node.test.left.id == "entity_class" and isinstance(node.test.ops[0], (ast.Eq, ast.In, ast.Is)):
+                    names = {n.id for c in node.test.comparators for n in ast.walk(c) if isinstance(n, ast.Name)} | \
+                            {n.attr for c in node.test.comparators for n in ast.walk(c) if isinstance(n, ast.Attribute)}
+                    if "CustomGroup" in names:
+                        fallback_covers_custom = True
+    if not found:
+        raise RuntimeError("Workspace.create_object_or_group not found: the class dispatch of copies cannot be read")
+    FLAGS["custom_group_copy_is_none"] = not fallback_covers_custom
+    tree = ast.parse((repo / "geoh5py/shared/utils.py").read_text())
+    fns = [fn for fn in ast.walk(tree) if isinstance(fn, ast.FunctionDef) and fn.name == "clear_array_attributes"]
+    if not fns:
+        raise RuntimeError("shared.utils.clear_array_attributes not found")
+    consts = {n.value for n in ast.walk(fns[0]) if isinstance(n, ast.Constant) and isinstance(n.value, str)}
+    FLAGS["clear_cache_keeps_parts"] = not any("parts" in c for c in consts)
+    return {"tables": {"copy_flags": dict(FLAGS)}}
+
+
 def tok(x):
     return int.from_bytes(hashlib.sha1(json.dumps(x, sort_keys=True, default=str).encode()).digest()[:5], "big")
 
@@ -657,7 +692,7 @@ def _payload_parts(node):
         mdl = sorted(((tok(k), tok(v)) for k, v in md["dict"]), key=lambda kv: IN[0](kv[0]))
     ndv = {"IntegerData": -2147483648, "ReferencedData": -2147483648, "BooleanData": 0}.get(cls)
     return dict(cls=tok(cls), knd=knd, geo=geo, asc=asc, attrs=attrs, verts=verts, cells=cells, ncell=ncell, vals=vals, meta=mdl,
-                nocopy=cls == "CustomGroup", ndv=None if ndv is None else _vals_list([ndv])[0])
+                nocopy=cls == "CustomGroup" and FLAGS["custom_group_copy_is_none"], ndv=None if ndv is None else _vals_list([ndv])[0])
 
 
 def _vals_term(vals):
@@ -755,7 +790,7 @@ def _case_term_general(case, obs):
     opts = "(Build_opts %s %s %s %s %s)" % (
         cbool(o["copy_children"] if "pick" not in case["src"] else True),
         "None" if o["mask"] is None else "(Some %s)" % clist(cbool(bool(b)) for b in o["mask"]),
-        cbool(o["omit_meta"]), _zz(over), cbool(o["clear_cache"]))
+        cbool(o["omit_meta"]), _zz(over), cbool(o["clear_cache"] and FLAGS["clear_cache_keeps_parts"]))
     world = "(Build_world %s %s %s 200000%%N)" % (wa, wb, clist("(%d%%N,%s)" % (l, _zz(d)) for l, d in heap.cells))
     dummy = "(C 0 CNew [] [] [] None None [] [])"
     if obs["error"] is None and "copy" not in obs:
